@@ -1,12 +1,411 @@
 """contract overlay for the fns of grammar/lua/stat.rs and grammar/lua/mod.rs (except parse_chunk) — see build.py for the format.
 Owned by the 'stat' side: the other side reads the requires/ensures written here as ASSUMED contracts."""
-LEMMAS = None            # e.g. 'stat_lemmas.rs' (hand-written lemmas with verified bodies, included before the fns)
-TYPES = {}               # extra extracted types / consts: key -> framework item dict
-SHIMS = []               # extra hand-written shim files (specification only) under units/c02_grammar/
-EXTRA_RULES = []         # (name, regex, repl, doc[, flags]) named rewrite rules
+import re
+from vc import rules as R
+from vc import rustlex as L
+from vc.extract import Undecided
+
+GM = 'crates/emmylua_parser/src/grammar/mod.rs'
+TKF = 'crates/emmylua_parser/src/kind/lua_token_kind.rs'
+LF = 'crates/emmylua_parser/src/kind/lua_features.rs'
+PCF = 'crates/emmylua_parser/src/parser/parser_config.rs'
+
+
+# =============================================================================================================================
+# unit-local rewrite rules (all prefixed gs-)
+# =============================================================================================================================
+def _strip_t_macros(s):
+    """remove every `t!( ... )` group (balanced) from s; returns (rest, number removed)"""
+    n = 0
+    while True:
+        m = re.search(r'\bt!\s*\(', s)
+        if not m: return s, n
+        depth, j = 1, m.end()
+        toks = [t for t in L.tokens(s[m.end():])]
+        end = None
+        for t in toks:
+            tx = s[m.end() + t[1]:m.end() + t[2]]
+            if t[0] == 'punct':
+                if tx == '(': depth += 1
+                elif tx == ')':
+                    depth -= 1
+                    if depth == 0:
+                        end = m.end() + t[2]; break
+        if end is None: raise Undecided('gs: unbalanced t!(..)')
+        s = s[:m.start()] + s[end:]
+        n += 1
+
+
+def _pure_msg(body):
+    """a message expression: `t!(..)` or `{ t!(..) }` (the i18n macro; its arguments are reads of locals / p.current_token() / the level field)"""
+    b = body.strip()
+    if b.startswith('{') and b.endswith('}'): b = b[1:-1].strip()
+    rest, n = _strip_t_macros(b)
+    return n == 1 and rest.strip() == ''
+
+
+@R.rule('gs-drop-error-report')
+def gs_drop_error_report(text, **_):
+    """Error REPORTING only: every statement `p.push_error(LuaParseError::syntax_error_from(MSG, RANGE));` (and the one
+    `p.errors.push(LuaParseError::syntax_error_from(MSG, RANGE));` of parse_attrib) becomes `vx_note_error();`. Accepted only if MSG is
+    `&t!(..)` or `&error_msg` and RANGE is `p.current_token_range()` (a pure read, total: proved in c01_parser without precondition) or a
+    local variable. `errors` is a field projected out of LuaParser (no contract mentions it); `push_error` / `Vec::push` touch nothing else.
+    What is removed: the construction of the i18n message (`t!`: reads of locals, `p.current_token()`, `p.parse_config.level`), the call of
+    `syntax_error_from` and the push. TRUSTED: these do not panic."""
+    n = 0
+    while True:
+        m = re.search(r'\bp\s*\.\s*(?:push_error|errors\s*\.\s*push)\s*\(', text)
+        if not m: break
+        toks = L.code_tokens(text)
+        oi = next(i for i, t in enumerate(toks) if t[2] == m.end())
+        ci = L.match_close(text, toks, oi)
+        if L.tok_text(text, toks[ci + 1]) != ';':
+            raise Undecided('gs-drop-error-report: push_error is not a statement')
+        arg = text[toks[oi][2]:toks[ci][1]].strip()
+        ma = re.match(r'LuaParseError::syntax_error_from\s*\((.*)\)\s*$', arg, flags=re.S)
+        if not ma: raise Undecided('gs-drop-error-report: unexpected argument: ' + arg[:60])
+        rest, _k = _strip_t_macros(ma.group(1))
+        if not re.match(r'^\s*&\s*(error_msg)?\s*,\s*(p\s*\.\s*current_token_range\s*\(\s*\)|[a-z_]+)\s*,?\s*$', rest, flags=re.S):
+            raise Undecided('gs-drop-error-report: arguments are not (message, pure range): ' + rest[:80])
+        text = text[:m.start()] + 'vx_note_error()' + text[toks[ci][2]:]
+        n += 1
+    return text, n
+
+
+LAZY_FNS = ('push_expr_error_lazy', 'expect_keyword_with_recovery', 'expect_end_keyword')
+
+
+@R.rule('gs-drop-msg-closure-arg')
+def gs_drop_msg_closure_arg(text, **_):
+    """call sites of push_expr_error_lazy / expect_keyword_with_recovery / expect_end_keyword: the last argument, a closure `|| t!(..)` /
+    `|| { t!(..) }` that only BUILDS the i18n error message (called once by the callee to report the error; captures are reads of
+    locals), is dropped together with the callee's parameter (rule gs-drop-msg-closure-param)."""
+    n = 0
+    pos = 0
+    while True:
+        m = re.compile(r'\b(%s)\s*\(' % '|'.join(LAZY_FNS)).search(text, pos)
+        if not m: break
+        toks = L.code_tokens(text)
+        oi = next(i for i, t in enumerate(toks) if t[2] == m.end())
+        if oi >= 2 and L.tok_text(text, toks[oi - 2]) == 'fn':
+            pos = m.end(); continue            # the definition itself
+        ci = L.match_close(text, toks, oi)
+        # top-level commas
+        k, depth, commas = oi + 1, 0, []
+        while k < ci:
+            tx = L.tok_text(text, toks[k])
+            if tx in ('(', '[', '{'):
+                k = L.match_close(text, toks, k) + 1; continue
+            if tx == ',': commas.append(k)
+            k += 1
+        if commas and all(toks[j][0] in ('ws',) for j in range(commas[-1] + 1, ci)):
+            commas_eff = commas[:-1]; last_end = toks[commas[-1]][1]       # trailing comma
+        else:
+            commas_eff = commas; last_end = toks[ci][1]
+        if not commas_eff: raise Undecided('gs-drop-msg-closure-arg: call without closure argument')
+        lc = commas_eff[-1]
+        arg = text[toks[lc][2]:last_end].strip()
+        if not arg.startswith('||'):
+            pos = m.end(); continue            # already rewritten
+        if not _pure_msg(arg[2:]):
+            raise Undecided('gs-drop-msg-closure-arg: closure is not a pure message: ' + arg[:80])
+        text = text[:toks[lc][1]] + text[toks[ci][1]:]
+        n += 1
+        pos = m.end()
+    return text, n
+
+
+@R.rule('gs-drop-msg-closure-param')
+def gs_drop_msg_closure_param(text, **_):
+    """definitions of push_expr_error_lazy / expect_keyword_with_recovery / expect_end_keyword: the generic parameter
+    `F: FnOnce() -> std::borrow::Cow<'static, str>`, the parameter `error_msg_fn: F` and the statement `let error_msg = error_msg_fn();`
+    are removed (the closure is called exactly once, only to build the message handed to push_error, which rule gs-drop-error-report
+    turns into vx_note_error()). TRUSTED: the message closures (`|| t!(..)`) do not panic."""
+    n_total = 0
+    for pat in (r'<F>', r',?\s*error_msg_fn: F,?(?=\s*\))', r'where\s+F: FnOnce\(\) -> std::borrow::Cow<\'static, str>,',
+                r'let error_msg = error_msg_fn\(\);'):
+        text, k = re.subn(pat, '', text, count=1)
+        if k != 1: raise Undecided('gs-drop-msg-closure-param: /%s/ not found' % pat)
+        n_total += 1
+    return text, n_total
+
+
+@R.rule('gs-map-err-question')
+def gs_map_err_question(text, **_):
+    """`parse_expr(p).map_err(|_| B)?`  ->  `(match parse_expr(p) { Ok(vx_v) => vx_v, Err(_) => { return Err(B); } })`
+    (std: Result::map_err applies the closure to the Err value and leaves Ok untouched; `?` returns `Err(From::from(e))`, and From is the
+    identity because B has the fn's error type). The closure ignores its argument."""
+    n = 0
+    while True:
+        m = re.search(r'parse_expr\(p\)\s*\.\s*map_err\s*\(\s*\|_\|', text)
+        if not m: break
+        toks = L.code_tokens(text)
+        # the `(` of map_err
+        oi = next(i for i, t in enumerate(toks) if L.tok_text(text, t) == '(' and i >= 1 and L.tok_text(text, toks[i - 1]) == 'map_err' and t[1] > m.start())
+        ci = L.match_close(text, toks, oi)
+        if L.tok_text(text, toks[ci + 1]) != '?':
+            raise Undecided('gs-map-err-question: map_err not followed by ?')
+        body = text[m.end():toks[ci][1]].strip()
+        new = '(match parse_expr(p) { Ok(vx_v) => vx_v, Err(_) => { return Err(%s); } })' % body
+        text = text[:m.start()] + new + text[toks[ci + 1][2]:]
+        n += 1
+    return text, n
+
+
+@R.rule('gs-match-guard-if-chain')
+def gs_match_guard_if_chain(text, scrutinee='keyword', **_):
+    """`match X { P1 if G1 => B1, P2 if G2 => B2, .., _ => Bn }` with X a local variable, every Pi a string literal (no binding) and an
+    unguarded final `_` arm  ->  `if matches!(X, P1) && (G1) { B1 } else if matches!(X, P2) && (G2) { B2 } .. else { Bn }`.
+    Arms are tried in order, a guard is evaluated only when its pattern matches (`&&` short-circuits), literal patterns have no effect:
+    the reference semantics of `match` with guards. (Needed because this Verus version loses the final value of a `&mut` parameter across a
+    guarded match: probe in units/c02_grammar/REQUESTS_TO_EXPR.md.)"""
+    m = re.search(r'\bmatch\s+%s\s*\{' % re.escape(scrutinee), text)
+    if not m: return text, 0
+    toks = L.code_tokens(text)
+    ob = next(i for i, t in enumerate(toks) if t[2] == m.end())
+    cb = L.match_close(text, toks, ob)
+    arms, k = [], ob + 1
+    while k < cb:
+        ps = k
+        while L.tok_text(text, toks[k]) not in ('if', '=') or (L.tok_text(text, toks[k]) == '=' and L.tok_text(text, toks[k + 1]) != '>'):
+            k += 1
+        pat = text[toks[ps][1]:toks[k - 1][2]]
+        guard = None
+        if L.tok_text(text, toks[k]) == 'if':
+            gs_ = k + 1
+            while not (L.tok_text(text, toks[k]) == '=' and L.tok_text(text, toks[k + 1]) == '>'):
+                k = L.match_close(text, toks, k) + 1 if L.tok_text(text, toks[k]) in ('(', '[', '{') else k + 1
+            guard = text[toks[gs_][1]:toks[k - 1][2]]
+        k += 2                                   # `=>`
+        if L.tok_text(text, toks[k]) == '{':
+            e = L.match_close(text, toks, k)
+            body = text[toks[k][1]:toks[e][2]]
+            k = e + 1
+        else:
+            bs = k
+            while k < cb and L.tok_text(text, toks[k]) != ',':
+                k = L.match_close(text, toks, k) + 1 if L.tok_text(text, toks[k]) in ('(', '[', '{') else k + 1
+            body = '{ ' + text[toks[bs][1]:toks[k - 1][2]] + ' }'
+        if k < cb and L.tok_text(text, toks[k]) == ',': k += 1
+        arms.append((pat.strip(), guard, body))
+    if not arms or arms[-1][0] != '_' or arms[-1][1] is not None:
+        raise Undecided('gs-match-guard-if-chain: last arm is not an unguarded `_`')
+    parts = []
+    for pat, guard, body in arms[:-1]:
+        if not re.match(r'^"[^"\\]*"$', pat) or guard is None:
+            raise Undecided('gs-match-guard-if-chain: arm is not `"literal" if guard`: ' + pat)
+        parts.append('if matches!(%s, %s) && (%s) %s' % (scrutinee, pat, guard, body))
+    new = ' else '.join(parts) + ' else ' + arms[-1][2]
+    return text[:m.start()] + new + text[toks[cb][2]:], 1
+
+
+OPT = {'optional': True}
+STD_RULES = [('gs-map-err-question', OPT), ('gs-drop-msg-closure-arg', OPT), ('gs-drop-error-report', OPT), ('gs-level-ge', OPT),
+             ('gs-crate-path', OPT)]
+
+EXTRA_RULES = [
+    ('gs-level-ge', r'p\.parse_config\.level >= LuaLanguageLevel::Lua55', 'vx_level_ge_lua55(&p.parse_config)',
+     '`p.parse_config.level >= LuaLanguageLevel::Lua55` (field read of the opaque ParserConfig + derived PartialOrd of a field-less enum: pure, '
+     'total) -> `vx_level_ge_lua55(&p.parse_config)`, an external_body fn with unconstrained result'),
+    ('gs-crate-path', r'crate::text::SourceRange', 'SourceRange', 'path only: `crate::text::SourceRange` is the extracted `SourceRange` of this file'),
+]
+
+# =============================================================================================================================
+# contract vocabulary
+# =============================================================================================================================
+HIDE = 'hide(l3::events_ok);'
+NS_REQ = 'nosoft(old(p)), gfirst(old(p))'
+NS_ENS = 'nosoft(final(p))'
+NOT_EOF = '!(old(p).current_token is TkEof)'
+PROG = 'gprog(old(p), final(p)) /*@C02.stat.progress*/'
+SAME = '*final(p) == *old(p)'
+LOOP_STD = 'ginv(p), nosoft(p), gfirst(p), gstep(old(p), p)'
+
+
+def mark_live(var='m', kind=r'\w+'):
+    """after `let [mut] m = p.mark(K);`: the marker is live (gives Z3 the term `p.events@[m.position]` that ev_mono propagates)"""
+    return (r'let (?:mut )?%s = p\.mark\(LuaSyntaxKind::%s\);' % (var, kind), 'after', 'proof { assert(m_live(&%s, p)); }' % var)
+
+
+def g(rank, requires=None, ensures=None, ret=None, loops=None, proof=None, rules=None, body_first=HIDE, attrs=None, ns=True, **kw):
+    d = {'rank': rank, 'rules': (rules or []) + STD_RULES}
+    req = ([NS_REQ] if ns else []) + ([requires] if requires else [])
+    ens = ([NS_ENS] if ns else []) + ([ensures] if ensures else [])
+    if req: d['requires'] = ',\n        '.join(req)
+    if ens: d['ensures'] = ',\n        '.join(ens)
+    if ret: d['ret'] = ret
+    if loops: d['loops'] = loops
+    if proof: d['proof'] = proof
+    if body_first: d['body_first'] = body_first
+    if attrs: d['attrs'] = attrs
+    d.update(kw)
+    return d
+
+
+def bump_first(rank, extra_ens=None, **kw):
+    """a statement parser that starts with `let m = p.mark(K); .. p.bump();`: called at a token that is not TkEof, always consumes"""
+    proof = [mark_live()] + list(kw.pop('proof', []))
+    ens = PROG + ((',\n        ' + extra_ens) if extra_ens else '')
+    return g(rank, requires=NOT_EOF, ensures=ens, ret='r', proof=proof, **kw)
+
+
+def wloop(extra='', dec='grem(p)'):
+    return 'invariant\n    %s,%s\ndecreases %s' % (LOOP_STD, ('\n    ' + extra.strip().rstrip(',') + ',') if extra else '', dec)
+
+
+M_INV = 'm_live(&m, p), p.mark_level > old(p).mark_level, gprog(old(p), p)'
+
+ITEMS = {
+    # ---------------------------------------------------------------------------------------------------------------- mod.rs
+    'parse_block': g(210, ret='r', ensures='r is Ok', proof=[mark_live()]),
+    'expect_token': g(
+        201, ret='r', requires='!(token is TkEof)',
+        ensures="""r is Ok ==> old(p).current_token == token && gprog(old(p), final(p))
+                   && (!sp_invalid(token) ==> final(p).events@.len() > old(p).events@.len()),
+        r is Err ==> """ + SAME),
+    'if_token_bump': g(
+        202, ret='r', requires='!(token is TkEof)',
+        ensures="""r ==> old(p).current_token == token && gprog(old(p), final(p)),
+        !r ==> """ + SAME),
+    'is_statement_start_token': {'ret': 'r', 'ensures': 'r == sp_stat_start(token) /*@C02.stat.start-set*/'},
+    # --------------------------------------------------------------------------------------------------------------- stat.rs
+    'push_expr_error_lazy': g(101, ensures=SAME, rules=['gs-drop-msg-closure-param']),
+    'expect_keyword_with_recovery': g(
+        102, ret='r', requires='!(expected is TkEof)', rules=['gs-drop-msg-closure-param'],
+        ensures="""old(p).current_token == expected ==> r && gprog(old(p), final(p)),
+        old(p).current_token != expected ==> """ + SAME + """ && r == sp_stat_start(old(p).current_token)"""),
+    'expect_end_keyword': g(104, rules=['gs-drop-msg-closure-param']),
+    'recover_to_block_end': g(
+        103,
+        loops={0: wloop('0 <= depth <= 1 + (p.token_index - old(p).token_index)', 'grem(p), depth') + ' /*@C02.stat.recover-terminates*/'}),
+    'recover_to_keywords': g(105, loops={0: wloop() + ' /*@C02.stat.recover-terminates*/'}),
+    'parse_expr_list_impl': g(106, ret='r', loops={0: wloop()}),
+    'parse_variable_name_list': g(119, ret='r', loops={0: wloop()}),
+    'parse_global_name_list': g(120, ret='r', loops={0: wloop()}),
+    'parse_stats': g(
+        190,
+        loops={
+            0: wloop() + ' /*@C02.stats.terminates*/',
+            1: """invariant
+    """ + LOOP_STD + """,
+    p.token_index == ti1, p.current_token == c1, ti1 > ti0 || !sp_stat_start(c1),
+    old(p).mark_level <= level <= current_level, p.mark_level + VERUS_ghost_iter.index() == current_level,
+    VERUS_ghost_iter.seq().len() == current_level - level,""",
+            2: """invariant
+    """ + LOOP_STD + """, old(p).mark_level <= level <= p.mark_level,
+    p.token_index >= ti0, can_continue ==> p.token_index > ti0,
+    p.token_index > ti0 || !sp_stat_start(p.current_token),
+decreases grem(p) /*@C02.stats.recovery-terminates*/""",
+        },
+        proof=[
+            (r'let level = p\.get_mark_level\(\);', 'after', 'let ghost ti0 = p.token_index;'),
+            (r'let current_level = p\.get_mark_level\(\);', 'after', 'let ghost ti1 = p.token_index; let ghost c1 = p.current_token;'),
+        ]),
+    'block_follow': {'ret': 'r', 'ensures': 'r == sp_block_follow(p.current_token) /*@C02.stat.block-follow-set*/'},
+    'parse_stat': g(
+        180, ret='r',
+        ensures="""r is Ok ==> gprog(old(p), final(p)) /*@C02.stat.progress*/,
+        r is Err && !gprog(old(p), final(p)) ==> !sp_stat_start(final(p).current_token) /*@C02.stat.err-progress-or-not-a-statement-start*/"""),
+    'parse_if': bump_first(140, loops={0: wloop(M_INV)}),
+    'parse_elseif_clause': bump_first(132),
+    'parse_else_clause': bump_first(131),
+    'parse_while': bump_first(139),
+    'parse_do': bump_first(138),
+    'parse_for': bump_first(137, loops={0: wloop(M_INV)}),
+    'parse_function': bump_first(136),
+    'parse_func_name': g(
+        126, ret='r', proof=[mark_live()],
+        loops={0: wloop('cm.start < p.events@.len(), p.events@[cm.start as int] is NodeStart')}),
+    'parse_local': bump_first(135),
+    'try_parse_const': g(
+        149, ret='r', requires=NOT_EOF, proof=[mark_live()],
+        ensures="""r is Err ==> gprog(old(p), final(p)),
+        r matches Ok(cm) ==> gprog(old(p), final(p)) || cm.kind is None,
+        gkeep(old(p), final(p))"""),
+    'parse_local_name': g(111, ret='r', proof=[mark_live()]),
+    'parse_attrib': bump_first(110),
+    'parse_return': bump_first(134),
+    'parse_break': bump_first(130),
+    'try_parse_continue': g(
+        148, ret='r', requires=NOT_EOF, proof=[mark_live()],
+        ensures="""r is Ok,
+        r matches Ok(cm) ==> gprog(old(p), final(p)) || cm.kind is None,
+        gkeep(old(p), final(p))"""),
+    'parse_repeat': bump_first(133),
+    'parse_goto': bump_first(129),
+    'parse_empty_stat': bump_first(128),
+    'try_parse_global_stat': g(
+        150, ret='r', requires=NOT_EOF, proof=[mark_live(), mark_live('m2')],
+        ensures="""r is Err ==> gprog(old(p), final(p)),
+        r matches Ok(cm) ==> gprog(old(p), final(p)) || cm.kind is None,
+        gkeep(old(p), final(p))"""),
+    'try_soft_keyword_stat': g(
+        160, ret='r', requires=NOT_EOF, rules=['gs-match-guard-if-chain'],
+        ensures="""r is Err ==> gprog(old(p), final(p)),
+        r matches Ok(cm) ==> gprog(old(p), final(p)) || cm.kind is None,
+        gkeep(old(p), final(p))"""),
+    'parse_assign_or_expr_or_soft_keyword_stat': g(
+        170, ret='r', proof=[mark_live()],
+        loops={0: wloop(M_INV)},
+        ensures="""r is Ok ==> gprog(old(p), final(p)) /*@C02.stat.progress*/,
+        old(p).current_token is TkName ==> gprog(old(p), final(p)) /*@C02.stat.progress*/,
+        gkeep(old(p), final(p))"""),
+    'is_compound_assignment_start': {'ret': 'r', 'ensures': 'r ==> !(p.current_token is TkEof)'},
+    'parse_label_stat': bump_first(127),
+}
+
+# =============================================================================================================================
+# additions to the base unit's items (proved in every grammar unit)
+# =============================================================================================================================
+BASE_PATCH = {
+    'LuaParser::peek_next_token': {
+        'ensures+': 'r == sp_peek(self.tokens@, self.token_index as int) /*@C02.peek.spec*/',
+        'proof+': [(r'self\.skip_trivia\(&mut next_index\);', 'after',
+                    'proof { lemma_next_nt(self.tokens@, self.token_index + 1, next_index as int); }')],
+    },
+    'LuaParser::bump': {
+        'ensures+': """!(sp_peek(old(self).tokens@, old(self).token_index as int) is None)
+                ==> final(self).current_token == sp_peek(old(self).tokens@, old(self).token_index as int) /*@C02.bump.lands-on-peeked-token*/,
+            !sp_invalid(old(self).current_token) ==> final(self).events@.len() > old(self).events@.len() /*@C02.bump.emits-an-event*/""",
+        'proof+': [(r'self\.skip_trivia\(&mut next_index\);', 'after',
+                    'proof { lemma_next_nt(self.tokens@, old(self).token_index + 1, next_index as int); }')],
+    },
+    'LuaParser::set_current_token_kind': {
+        'ensures+': """forall|j: int| 0 <= j < old(self).tokens@.len() && j != old(self).token_index ==> #[trigger] final(self).tokens@[j] == old(self).tokens@[j],
+            old(self).token_index < old(self).tokens@.len() ==> final(self).current_token == kind && final(self).tokens@[old(self).token_index as int].kind == kind,
+            sp_peek(final(self).tokens@, final(self).token_index as int) == sp_peek(old(self).tokens@, old(self).token_index as int) /*@C02.set-kind.peek-unchanged*/""",
+        'proof+': [(r'self\.current_token = kind;', 'after',
+                    'proof { lemma_next_nt_frame(old(self).tokens@, self.tokens@, self.token_index + 1); }')],
+    },
+    'parse_chunk': {
+        'requires+': 'nosoft(old(p))',
+        'loop_invariants+': {0: 'nosoft(p)'},
+    },
+}
+
+# clauses needed from expr.rs fns that are not (yet) in expr_items.py — see REQUESTS_TO_EXPR.md
+CROSS_NEEDS = {
+    'parse_expr': {'ret': 'r', 'ensures': NS_ENS},
+    'parse_closure_expr': {'ret': 'r', 'ensures': NS_ENS},
+    'parse_simple_expr': {
+        'ret': 'r',
+        'ensures': NS_ENS + """,
+        (r is Ok || old(p).current_token is TkName) ==> gprog(old(p), final(p)) /*@C02.expr.simple-progress*/,
+        gkeep(old(p), final(p))"""},
+}
+
+LEMMAS = None
+TYPES = {
+    'ParseFailReason': {'src': {'file': GM, 'kind': 'enum', 'name': 'ParseFailReason'}},
+    'ParseResult': {'src': {'file': GM, 'kind': 'type', 'name': 'ParseResult'}},
+    'LuaFeatures': {'src': {'file': LF, 'kind': 'enum', 'name': 'LuaFeatures'}, 'attrs': '#[derive(Clone, Copy)]'},
+    'SpecialFunction': {'src': {'file': PCF, 'kind': 'enum', 'name': 'SpecialFunction'}, 'attrs': '#[derive(Clone, Copy, PartialEq, Eq, Structural)]'},
+    'LuaTokenKind::is_compound_assign_op': {
+        'src': {'file': TKF, 'kind': 'fn', 'impl': 'LuaTokenKind', 'name': 'is_compound_assign_op'}, 'place': False,
+        'ret': 'r', 'ensures': 'r ==> !(self is TkEof) && !(self is None)'},
+}
+SHIMS = ['shared_shims.rs', 'stat_shims.rs']
 MUTANTS = []
 TRUSTED = []
-ALLOW = []
+ALLOW = [r'assume_specification<T: PartialEq>\[ <\[T\]>::contains \]']
 NOT_COVERED = []
-ITEMS = {
-}
